@@ -405,6 +405,15 @@ async def one_message(ctx, e, d: bytes, fam: str, rng, coq_cases, coq_inputs,
             except AssertionError as exc:
                 ctx.disagreement(f'fetch_imap_{backend}', {'input': d.hex()[:2000],
                                                            'unencodable': repr(exc)})
+    # other messages with the same checksum / nearly the same bytes are stored
+    # next to this one while it is still there: each must come back as its own
+    # literal (byte-exactness is per message, whatever a store keys content by)
+    if rng.random() < (0.4 if backend == 'dict' else 0.25) and len(d) <= 8192:
+        await siblings_step(ctx, e, d, rep, rng, partials, expect_loaded)
+        if e.conn.closed or e.conn.exc is not None:
+            # an APPEND of a sibling that the backend does not accept ended the
+            # connection (maildir + 8-bit multipart: C06 territory)
+            return 'sibling_append_lost_connection'
     # COPY and MOVE, then look at the copies
     status = 'ok'
     do_copy = e.copy_ok
@@ -441,6 +450,61 @@ async def one_message(ctx, e, d: bytes, fam: str, rng, coq_cases, coq_inputs,
     await e.cmd(b'SELECT INBOX')
     await e.cleanup(None)
     return status
+
+
+async def siblings_step(ctx, e, d: bytes, rep, rng, partials, expect_d) -> None:
+    """INBOX holds exactly the message d (sequence number 1).  Store its
+    near-siblings, check each (and the COPY of the checksum-colliding ones)
+    byte-exactly against its own literal, check d again, remove the siblings."""
+    backend = e.backend
+    stats = ctx.extra.setdefault('siblings', {})
+    copied = False
+    stored = 0
+    for kind, s in M.near_siblings(d, rng):
+        r = await e.append(s)
+        if not e.tagged_ok(r, e.last_tag):
+            lst = ctx.extra.setdefault('append_not_accepted', [])
+            if len(lst) < 12:
+                lst.append({'backend': backend, 'reply': r[-120:].decode('latin-1'),
+                            'exc': repr(e.conn.exc)[:200], 'data': s[:600].hex()})
+            if e.conn.closed or e.conn.exc is not None:
+                return
+            continue
+        stored += 1
+        stats[kind] = stats.get(kind, 0) + 1
+        ctx.count((backend, 'sibling', kind, s))
+        rep_s = {'data': s.hex() if len(s) <= 4096 else s[:4096].hex() + '...', 'len': len(s),
+                 'backend': backend, 'family': 'sibling:' + kind,
+                 'stored_before': rep['data'], 'sequence': ['APPEND stored_before', 'APPEND data']}
+        expect_s = M.stdlib_roundtrip(s) if backend == 'maildir' else None
+        parts_ok = [(o, n) for o, n in partials if n >= 1]
+        items, _raw = await e.fetch_all(b'*', [], parts_ok)
+        if isinstance(items, str):
+            ctx.failure('body_verbatim', f'[{backend}/sibling] {items}', rep_s,
+                        {'kind': 'fetch_failed', 'where': 'sibling', 'backend': backend})
+            if e.conn.closed:
+                return
+            continue
+        M.check_items(ctx, s, items, parts_ok, rep_s, 'sibling', backend, expect_s)
+        if kind == 'adler_collision' and e.copy_ok and not copied:
+            copied = True
+            r = await e.cmd(b'COPY * CpDst')
+            if e.tagged_ok(r, e.last_tag):
+                await e.cmd(b'SELECT CpDst')
+                items, _raw = await e.fetch_all(b'*', [], parts_ok)
+                if not isinstance(items, str):
+                    M.check_items(ctx, s, items, parts_ok, rep_s, 'sibling_copy', backend, expect_s)
+                await e.cleanup(None)
+                await e.cmd(b'SELECT INBOX')
+    # the first message is still what it was
+    parts_ok = [(o, n) for o, n in partials if n >= 1]
+    items, _raw = await e.fetch_all(b'1', [], parts_ok)
+    if not isinstance(items, str):
+        M.check_items(ctx, d, items, parts_ok, dict(rep, after='siblings appended'),
+                      'original_again', backend, expect_d)
+    if stored:
+        await e.cmd(b'STORE 2:%d +FLAGS.SILENT (\\Deleted)' % (1 + stored))
+        await e.cmd(b'EXPUNGE')
 
 
 async def e2e_run(ctx, backend: str, inputs, coq_cases, coq_inputs):
@@ -547,6 +611,31 @@ def replay(ctx, obj) -> int:
         data = data[:-3]
     d = bytes.fromhex(data)
     print('literal:', d[:200])
+    if obj.get('stored_before'):
+        # a failure that needs another message stored first
+        first = bytes.fromhex(obj['stored_before'].rstrip('.'))
+        backend = obj.get('backend', 'dict')
+
+        async def pair():
+            e = await M.E2E(backend).start()
+            try:
+                await e.append(first)
+                await e.append(d)
+                items, _ = await e.fetch_all(b'*', [], [])
+                if isinstance(items, str):
+                    print('fetch failed:', items)
+                    return
+                exp = M.stdlib_roundtrip(d) if backend == 'maildir' else None
+                M.check_items(ctx, d, items, [], dict(obj), 'sibling', backend, exp)
+                print('stored first:', first[:120])
+                print('BODY[] of the second:', (M.lit(items.get(b'BODY[]')) or b'')[:120])
+            finally:
+                e.close()
+        arun(pair())
+        for v in ctx.violations:
+            print('FAILS:', v['clause'], '-', v['what'])
+        print(json.dumps({'violations': len(ctx.violations), 'known': sorted(ctx.known_hits)}))
+        return 1 if ctx.violations else 0
     obs = M.observe_parse(d)
     M.pure_monitor(ctx, d, obs, ctx.rng)
     for backend in ([obj['backend']] if obj.get('backend') in ('dict', 'maildir')
